@@ -1831,6 +1831,10 @@ class ListBox(Widget, WidgetContainerMixin):
             if not rows:  # never focus a 0-height widget
                 continue
 
+            if row_offset + rows <= 0:
+                # this page scrolls it off the top edge entirely: not a candidate
+                continue
+
             # if completely within snap region, adjust row_offset
             if row_offset >= maxrow:
                 snap_rows -= snap_rows + maxrow - row_offset - 1
